@@ -7,7 +7,13 @@
   iterator contributes, per element of its range and in range order, what its template
   yields with the iteration variable bound; ANY template error — including one in an
   `enabled` expression — fails the load. The result contains no iterator nodes
-  (`aggregator.GetRoles()` makes them transparent).
+  (`aggregator.GetRoles()` makes them transparent). An include role is the root of the workflow
+  document its `include:` expression names, under the include role's own name: that root's
+  `enabled` / variables / children are read in the stack of the include role as written — in
+  which an iteration variable the include role was generated with IS BOUND (`inclHdrP true`), so
+  every role of the included sub-workflow sees the element of ITS iteration —; an include role
+  that is disabled, or whose root is disabled or left empty, is absent; an unknown document, an
+  error in the include role's own fields or anywhere in the included tree fails the load.
 
   `Spec` compares what an implementation returned with `idealLoad`.
 -/
@@ -52,6 +58,22 @@ def ideal (ctx : Ctx) (loc : Env) : Tmpl → IOut
       match evalRange ctx.lookRange rng with
       | none => ⟨true, .nil⟩
       | some vals => vals.foldr (fun v acc => (ideal ctx [(var, v)] body).seq acc) {}
+    me.seq (ideal ctx loc next)
+  | .incl h inc docs next =>
+    let me : IOut :=
+      match inclHdrP true ctx loc h inc docs with
+      | .error => ⟨true, .nil⟩
+      | .masked => ⟨true, .nil⟩
+      | .disabled => {}
+      | .ok _ cw _ => ideal cw [] docs
+    me.seq (ideal ctx loc next)
+  | .doc file h kids next =>
+    let me : IOut :=
+      match docHdr ctx file h with
+      | .error => ⟨true, .nil⟩
+      | .masked => ⟨true, .nil⟩
+      | .disabled => {}
+      | .ok i c' _ => idealAgg i (ideal c' [] kids)
     me.seq (ideal ctx loc next)
 
 def IOut.loaded (o : IOut) : Loaded :=
@@ -103,11 +125,14 @@ def iterEnabledLiteral : Tmpl → Bool
   | .agg _ k n => iterEnabledLiteral k && iterEnabledLiteral n
   | .task _ _ _ n => iterEnabledLiteral n
   | .call _ _ _ n => iterEnabledLiteral n
+  | .incl _ _ d n => iterEnabledLiteral d && iterEnabledLiteral n
+  | .doc _ _ k n => iterEnabledLiteral k && iterEnabledLiteral n
   | .iter _ _ b n =>
     (match b with
      | .agg h _ .nil => isLiteral h.enabled
      | .task h _ _ .nil => isLiteral h.enabled
      | .call h _ _ .nil => isLiteral h.enabled
+     | .incl h _ _ .nil => isLiteral h.enabled
      | _ => false) && iterEnabledLiteral b && iterEnabledLiteral n
 
 /-- the iterator's template is exactly one role (as the YAML grammar guarantees) -/
@@ -162,5 +187,35 @@ def nestCtxs (ctx : Ctx) : List Level → List Ctx
 /-- every level's aggregator carries a plain truthy `enabled` (needed for the legacy configuration
     only: else former finding iterator_enabled_expr strikes) -/
 def nestEnabled (ls : List Level) : Bool := ls.all fun l => truthy (rawText l.hdr.enabled)
+
+/-! ## include roles under iterators: the iteration variable below the include site -/
+
+/-- every role of a processed tree (aggregators too), through iterator nodes: what `Walk` visits -/
+def Tree.allInfos : Tree → List Info
+  | .nil => []
+  | .agg i k n => i :: (allInfos k ++ allInfos n)
+  | .task i _ _ n => i :: allInfos n
+  | .call i _ _ n => i :: allInfos n
+  | .iter k n => allInfos k ++ allInfos n
+
+/-- the header gives `var` no nearer value: it is neither one of its `vars` nor a user variable
+    (a `default` of that name is farther than any var and changes nothing) -/
+def hdrKeeps (var : String) (h : Hdr) : Bool :=
+  h.vars.all (fun kv => kv.1 != var) && h.uvars.all (fun kv => kv.1 != var)
+
+/-- nothing in the template gives `var` a nearer value: no role sets it as a var / user var and
+    no iterator uses it as its own iteration variable — at any depth, through included documents -/
+def noRebind (var : String) : Tmpl → Bool
+  | .nil => true
+  | .agg h k n => hdrKeeps var h && noRebind var k && noRebind var n
+  | .task h _ _ n => hdrKeeps var h && noRebind var n
+  | .call h _ _ n => hdrKeeps var h && noRebind var n
+  | .iter _ v b n => v != var && noRebind var b && noRebind var n
+  | .incl h _ d n => hdrKeeps var h && noRebind var d && noRebind var n
+  | .doc _ h k n => hdrKeeps var h && noRebind var k && noRebind var n
+
+/-- the stack binds `var` to `v` as a VAR no user variable overrides: what publishing an iteration
+    variable (`Locals → Vars`) establishes for everything below -/
+def Ctx.binds (c : Ctx) (var v : String) : Prop := lookup c.U var = none ∧ lookup c.V var = some v
 
 end Load
